@@ -365,9 +365,9 @@ MC_TOP = (0, M64, frozenset(), 0, 0)   # (lo, hi, excluded constants, bits known
 
 
 class St:
-    __slots__ = ('r', 's', 'fl', 'v', 'df', 'u', 'mc', 'pv')
+    __slots__ = ('r', 's', 'fl', 'v', 'df', 'u', 'mc', 'pv', 'mz')
 
-    def __init__(s, r, sl, fl, v=frozenset(), df=0, u=frozenset(range(32)), mc=None, pv=None):
+    def __init__(s, r, sl, fl, v=frozenset(), df=0, u=frozenset(range(32)), mc=None, pv=None, mz=frozenset()):
         s.r = r      # gpr values
         s.s = sl     # stack slots {('SP',off)|('F',id,off): value}
         s.fl = fl    # flags fact
@@ -378,8 +378,11 @@ class St:
         s.pv = pv if pv is not None else {}   # provenance {gpr name | vector number: frozenset(addresses of the (v)phminposuw
         #                                       instructions the value may be derived from by copies / extracts / broadcasts; '*' = or other)}
 
+        s.mz = mz   # must-zero: (destination family, base value | frame kind, lo, hi) byte ranges overwritten with zero on EVERY path
+        #             from the entry to this point and not written with anything else since
+
     def copy(s):
-        return St(dict(s.r), dict(s.s), s.fl, s.v, s.df, s.u, dict(s.mc), dict(s.pv))
+        return St(dict(s.r), dict(s.s), s.fl, s.v, s.df, s.u, dict(s.mc), dict(s.pv), s.mz)
 
 
 class FuncResult(dict):
@@ -466,8 +469,11 @@ def analyse_func(name, entry, insns, summaries, thresholds, vec_entry_dirty=Fals
             npv[k] = (a_ | b_) if (a_ is not None and b_ is not None) else ((a_ or b_) | {'*'})
         if npv != old.pv:
             changed = True
+        nmz = old.mz & st.mz
+        if nmz != old.mz:
+            changed = True
         if changed:
-            states[to] = St(nr, ns, fl, nv, df, nu, nmc, npv)
+            states[to] = St(nr, ns, fl, nv, df, nu, nmc, npv, nmz)
             work.append(to)
 
     while True:
@@ -597,6 +603,21 @@ def analyse_func(name, entry, insns, summaries, thresholds, vec_entry_dirty=Fals
                 regs[p] = None
 
         def record_store(ad, w, srcval, kind, imm=None):
+            # ---- must-zero facts (kept in every pass: they are part of the state)
+            if ad is not None and ad[0] in ('ptr', 'stack'):
+                zero = srcval is not None and srcval[0] == 'I' and srcval[1] == 0 == srcval[2] and kind in ('mov', 'vec') and \
+                    '{k' not in ins['ops'].split(',')[0]
+                if ad[0] == 'ptr':
+                    bkey, lo, idx = ad[1], ad[2], bool(ad[3])
+                    hi = (lo + w) if lo is not None else None
+                else:
+                    bkey, lo, hi, idx = ('frame', ad[1][0]), ad[2], ad[3] + w, ad[2] != ad[3]
+                if st.mz:
+                    # anything written to the same place (or somewhere unknown relative to the same base) ends the fact
+                    st.mz = frozenset(f_ for f_ in st.mz if f_[0] != bkey or
+                                      (lo is not None and not idx and not f_[3] and (hi <= f_[1] or lo >= f_[2])))
+                if zero and lo is not None:
+                    st.mz = st.mz | {(bkey, lo, hi, idx)}
             if collect and final[0] and ad is not None and ad[0] == 'stack' and srcval is not None and srcval[0] == 'I' and \
                     srcval[1] == 0 == srcval[2] and kind in ('mov', 'vec'):
                 # own-frame bytes overwritten with zero (SAFE_DATA clearing of spilled state)
@@ -623,7 +644,7 @@ def analyse_func(name, entry, insns, summaries, thresholds, vec_entry_dirty=Fals
                 if regs[r] != ('E', r, 0):
                     bad.append((r, regs[r]))
             ex = {'a': a, 'kind': kind, 'bad': bad, 'df': st.df, 'vec': sorted(st.v), 'unclean': sorted(st.u),
-                  'rax': regs['rax'], 'target': target}
+                  'rax': regs['rax'], 'target': target, 'mz': sorted(st.mz, key=repr)}
             k = (a, kind)
             if k in seen_exit:
                 # keep the weakest
@@ -634,6 +655,7 @@ def analyse_func(name, entry, insns, summaries, thresholds, vec_entry_dirty=Fals
                         e['unclean'] = sorted(set(e['unclean']) | st.u)
                         e['df'] = e['df'] if e['df'] == st.df else 2
                         e['rax'] = e['rax'] if e['rax'] == regs['rax'] else None
+                        e['mz'] = sorted(set(e['mz']) & st.mz, key=repr)
                 return
             seen_exit.add(k)
             exits.append(ex)
@@ -885,6 +907,7 @@ def analyse_func(name, entry, insns, summaries, thresholds, vec_entry_dirty=Fals
                     st.df = 2
             st.fl = None
             st.pv = {k: v for k, v in st.pv.items() if k in CALLEE}
+            st.mz = frozenset()          # the callee may write anywhere
             flow(nxt, st)
             continue
         newfl = None
@@ -1179,6 +1202,7 @@ def analyse_func(name, entry, insns, summaries, thresholds, vec_entry_dirty=Fals
                     regs[r] = None
                 if 'lods' in mn or 'scas' in mn:
                     regs['rax'] = None
+                st.mz = frozenset()
                 if st.df != 0 and collect:
                     notes.append(('string-op-df', a, mn, st.df))
             if mn in ('pcmpestri', 'pcmpistri', 'vpcmpestri', 'vpcmpistri'):
